@@ -71,8 +71,7 @@ def dyn_setup(I, kind=None, with_layout=True):
     sig = V.Sigma(concrete=I.ext_state.get("concrete"))
     for ax in sig.wfs():
         I.ctx.assume(ax)
-    if with_layout:
-        sig.install_layout(I)
+    sig.install_layout(I)
     I.ext_state["sig"] = sig
     T = z3.Const("T", A2)
     I.ctx.assume(V.WF(sig, T))
